@@ -18,7 +18,12 @@
 #include <unistd.h>
 
 const char *g_exe_path = "";
-static const char *VERIF_DIR = "/verif";
+static const char *verif_dir_init()
+{
+	const char *e = getenv("VERIF_DIR");
+	return (e && *e) ? strdup(e) : "/verif";
+}
+static const char *VERIF_DIR = verif_dir_init();
 
 // ------------------------------------------------------------------ RunCtx
 void RunCtx::logs(const std::string &s)
